@@ -121,6 +121,27 @@ Section Decomp.
       omap (omap (fun i => nth_error cs i)) g.
   Definition group_cols (a : spmat R) : option (list (list nat)) := group_cols_sched a all_pairs.
 
+  (* The check and the union of one loop iteration are two separate critical sections
+       if !u.lock().unwrap().is_same(i, j) && col_intersects(..) { u.lock().unwrap().union(i, j) }
+     so other workers' unions may happen in between.  A trace lists, in the order of the union slots, the
+     pair and the outcome [skip] of the earlier is_same test.  Classes only grow, so a test that returned true
+     earlier is still true at the union slot: [None] marks traces that cannot occur (a skip that is not
+     justified).  When the test returned false the union is executed whatever the state is by then. *)
+  Definition group_step_na (a : spmat R) (cs : list nat) (p : uf) (e : nat * nat * bool) : option uf :=
+    let '(i, j, skip) := e in
+    if skip then do same <- uf_is_same p i j; if same then Some p else None
+    else
+      do ci <- nth_error cs i; do cj <- nth_error cs j;
+      if col_intersects a ci cj then uf_union p i j else Some p.
+  Definition group_cols_trace (a : spmat R) (trace : list (nat * nat * bool)) : option (list (list nat)) :=
+    let cs := nonempty_cols a in
+    let l := length cs in
+    if l =? 0 then Some []
+    else
+      do p <- ofold (group_step_na a cs) trace (uf_new l);
+      do g <- uf_group p;
+      omap (omap (fun i => nth_error cs i)) g.
+
   (* fn rows_in: the sorted set of the row indices of the given columns *)
   Definition rows_in (a : spmat R) (cs : list nat) : list nat :=
     fold_left (fun acc j => nat_union acc (row_indices a j)) cs [].
